@@ -28,7 +28,7 @@ theorem C13_failed_open1_keeps_source (ph : Phys) (seekable : Bool) (s : VF) (h 
     have h' : ((0 : Int) < 0) := h
     omega
 
-/-- **only `ov_clear` closes**: whatever sequence of reads, sample seeks, page seeks and raw seeks, plain or lapped (failing ones included) is issued on
+/-- **only `ov_clear` closes**: whatever sequence of reads, sample seeks, page seeks, raw seeks and time seeks, plain or lapped (failing ones included) is issued on
     an opened seekable handle, the close callback has not run and the data source is still attached; `ov_clear` then closes it exactly
     once -/
 theorem C13_only_clear_closes (ph : Phys) (s t : VF) (hk : s.seekable = true) (hr : s.ready = OPENED)
